@@ -198,6 +198,51 @@ impl LoopRange {
         }
     }
 
+    /// Add two loop ranges without panicking
+    ///
+    /// - return None if the result of [add][Self::add] cannot be represented with 32bit
+    ///   unsigned integers.
+    pub(crate) fn checked_add(&self, other: &LoopRange) -> Option<LoopRange> {
+        let i = self.start().checked_add(other.start())?;
+        if self.is_infinite() || other.is_infinite() {
+            Some(LoopRange::infinite(i))
+        } else {
+            let j = self.end().checked_add(other.end())?;
+            Some(LoopRange::finite(i, j))
+        }
+    }
+
+    /// Multiply two loop ranges without panicking
+    ///
+    /// - return None if the result of [mul][Self::mul] cannot be represented with 32bit
+    ///   unsigned integers.
+    pub(crate) fn checked_mul(&self, other: &LoopRange) -> Option<LoopRange> {
+        if self.is_zero() || other.is_zero() {
+            Some(LoopRange::point(0))
+        } else if self.is_infinite() || other.is_infinite() {
+            let i = self.start().checked_mul(other.start())?;
+            Some(LoopRange::infinite(i))
+        } else {
+            let i = self.start().checked_mul(other.start())?;
+            let j = self.end().checked_mul(other.end())?;
+            Some(LoopRange::finite(i, j))
+        }
+    }
+
+    /// Non-panicking variant of [right_mul_is_exact][Self::right_mul_is_exact]
+    ///
+    /// - return None if the test itself would overflow.
+    pub(crate) fn checked_right_mul_is_exact(&self, other: &LoopRange) -> Option<bool> {
+        if other.is_point() {
+            Some(true)
+        } else if self.is_infinite() {
+            Some(other.start() > 0 || self.start() <= 1)
+        } else {
+            let x = other.start().checked_mul(self.end() - self.start())?;
+            Some(x >= self.start().saturating_sub(1))
+        }
+    }
+
     ///
     /// Add a point interval
     ///
